@@ -20,12 +20,13 @@ def handle0 (inp out : Sexp) : CaseResult :=
     match decodeGate g, n.toNat?, decodeRes out with
     | some g, some n, some impl =>
       let model := resOfModel (toUnitary g n)
-      let agree := resAgree tolAgree model impl
+      let kinds := gateErrKinds g
+      let agree := resAgreeKinds tolAgree kinds model impl
       let spec := gateSpec g n
       let specOk := match spec, impl with
         | some s, .ok m => closeMat tolSpec s m && isUnitaryF tolSpec m
         | some _, _ => false
-        | none, _ => true
+        | none, _ => rejectedOk kinds model impl
       { agree := agree, specOk := specOk, nontrivial := spec.isSome && !g.mods.isEmpty,
         tags := [modsTag g.mods, s!"depth{g.mods.length}", s!"g-{g.name}", s!"n{n}", resTag impl,
                  if spec.isSome then "spec" else "nospec"],
@@ -43,7 +44,7 @@ def handle0 (inp out : Sexp) : CaseResult :=
         let firstOk := match impl1 with | .ok _ => true | _ => false
         -- only after a successful first call is the consumed state fully determined
         let m2 := resOfModel (toUnitary g.consumed n)
-        let agree := resAgree tolAgree m1 impl1 && (!firstOk || resAgree tolAgree m2 impl2)
+        let agree := resAgreeKinds tolAgree (gateErrKinds g) m1 impl1 && (!firstOk || resAgreeKinds tolAgree (gateErrKinds g.consumed) m2 impl2)
         let spec1 := gateSpec g n
         let spec2 := gateSpec g.consumed n
         let ok (s : Option M) (r : Res) : Bool := match s, r with
@@ -63,7 +64,8 @@ def handle0 (inp out : Sexp) : CaseResult :=
       | none => .bad "undecodable program result"
       | some impl =>
         let model := progRes (progUnitary is n)
-        let agree1 := resAgree tolAgree model impl
+        let kinds := progErrKinds is
+        let agree1 := resAgreeKinds tolAgree kinds model impl
         -- dagger: the new body, and its unitary
         let mDag := progDagger is
         let (agree2, dagOk, dagTag) : Bool × Bool × String :=
@@ -83,7 +85,7 @@ def handle0 (inp out : Sexp) : CaseResult :=
                 | .ok u, .ok u' => closeMat tolSpec (Mat.adjoint u) u'
                 | .ok _, _ => false
                 | _, _ => true
-              (sameBody && resAgree tolAgree model2 impl2, ok, "dagger-ok")
+              (sameBody && resAgreeKinds tolAgree (progErrKinds body) model2 impl2, ok, "dagger-ok")
           | _, _ => (false, true, "dagger-mismatch")
         -- specification of the program unitary: the product of the gates' denotations, HALT skipped
         let gates := is.filterMap fun | .gate g => some g | _ => none
@@ -91,7 +93,7 @@ def handle0 (inp out : Sexp) : CaseResult :=
         let specOk1 := match spec, impl with
           | some s, .ok m => closeMat tolSpec s m && isUnitaryF tolSpec m
           | some _, _ => false
-          | none, _ => true
+          | none, _ => rejectedOk kinds model impl
         -- `to_unitary(&self)` called again after `dagger()` returns the very same result
         let stable := r1 == r3
         { agree := agree1 && agree2 && stable, specOk := specOk1 && dagOk && stable, nontrivial := spec.isSome && gates.length ≥ 2,
